@@ -84,6 +84,12 @@ var genGenBech32, genGenVrf func(g *G)
 
 func init() {
 	mirrorOps["bech32.dec"], mirrorOps["bech32.enc"] = "gen.bech32.dec", "gen.bech32.enc"
+	// pkg/merkle: every op of the C15 stream is also answered by the generated Hasher.Hash / EmptyRoot
+	for _, op := range []string{"merkle.hash", "merkle.gen", "merkle.generrs", "merkle.empty"} {
+		op := op
+		mirrorOps[op] = "gen." + op
+		execs["gen."+op] = func(a []string) string { return execs[op](a) }
+	}
 	execs["gen.bech32.dec"] = func(a []string) string { return execs["bech32.dec"](a) }
 	execs["gen.bech32.enc"] = func(a []string) string { return execs["bech32.enc"](a) }
 	b6 := map[error]string{b1t6.ErrInvalidTrits: "ErrInvalidTrits", b1t6.ErrInvalidLength: "ErrInvalidLength"}
